@@ -222,6 +222,9 @@ LIB = {
     ],
     "Control": [
         ("finally-return-override", "(() => { try { return 1; } finally { return 2; } })()"), ("finally-after-catch-return", "(() => { let log = ''; function f() { try { throw 1; } catch (e) { log += 'c'; } finally { log += 'f'; } return 'r'; } f(); return log; })()"),
+        ("finally-nested-try-in-finally", "(() => { let l = ''; function f() { try { return 'r'; } finally { try { l += 'a'; } finally { l += 'b'; } l += 'c'; } } const v = f(); return l + v; })()"),
+        ("finally-nested-throw-pending", "(() => { let l = ''; try { try { throw 1; } finally { try { l += 'a'; } finally { l += 'b'; } l += 'c'; } } catch (e) { l += e; } return l; })()"),
+        ("finally-inner-break-keeps-pending", "(() => { let l = ''; try { try { throw 1; } finally { for (;;) { try { break; } finally { l += 'b'; } } l += 'c'; } } catch (e) { l += e; } return l; })()"),
         ("finally-break", "(() => { let n = 0; for (;;) { try { break; } finally { n++; } } return n; })()"), ("finally-continue", "(() => { let n = 0; for (let i = 0; i < 2; i++) { try { continue; } finally { n++; } } return n; })()"),
         ("nested-finally-order", "(() => { let l = ''; try { try { throw 1; } finally { l += 'a'; } } catch (e) { l += 'b'; } finally { l += 'c'; } return l; })()"), ("throw-in-finally", "(() => { try { try { throw 'a'; } finally { throw 'b'; } } catch (e) { return e; } })()"),
         ("catch-rethrow-finally", "(() => { let l = ''; try { try { throw 1; } catch (e) { l += 'c'; throw 2; } finally { l += 'f'; } } catch (e) { l += e; } return l; })()"), ("label-break-block-scope", "(() => { let x = 1; L: for (;;) { { let x = 2; break L; } } return x; })()"),
